@@ -49,7 +49,7 @@ def resolve(target):
         obj = obj.__func__
     if not inspect.isfunction(obj):
         raise TargetMissing(f"{target}: not a function")
-    return owner, obj
+    return owner, unwrap(obj)
 
 
 @dataclass
